@@ -7,6 +7,7 @@ import Q1t.Spec.Stab
 import Q1t.Spec.StabEnum
 import Q1t.Gen.PhaseTable
 import Q1t.Gen.Conj
+import Std.Data.HashSet
 /-! Driver for C03: one request per line, one answer per line.
 
 Requests (words separated by blanks; a tableau is its `Display` lines joined by `,`, `_` = 0 qubits):
@@ -66,6 +67,31 @@ def peekAllWords (t : Tab) : Res (List Nat) := do
 
 def sortNats (l : List Nat) : List Nat := (l.toArray.qsort (· < ·)).toList
 
+/-- number of tableaux reachable from `new n` under H, S, CX (model), breadth-first with a hash set of
+`Display` texts (the list-based `closure` of the spec is quadratic; this one is used for `n ≥ 4`) -/
+def countClosure (n : Nat) : Option Nat := Id.run do
+  let gens := Q1t.Spec.Stab.gens n
+  let t0 := Tab.new n
+  let mut seen : Std.HashSet String := Std.HashSet.emptyWithCapacity 65536
+  seen := seen.insert (showTab t0)
+  let mut frontier : Array Tab := #[t0]
+  let mut failed := false
+  -- at most as many rounds as there are states
+  for _ in [0:100000] do
+    if frontier.isEmpty || failed then break
+    let mut next : Array Tab := #[]
+    for t in frontier do
+      for g in gens do
+        match Q1t.Spec.StabEnum.stepT params t g.gate g.bits with
+        | .ok t' =>
+          let key := showTab t'
+          if !seen.contains key then
+            seen := seen.insert key
+            next := next.push t'
+        | _ => failed := true
+    frontier := next
+  return if failed then none else some seen.size
+
 def handle (line : String) : String :=
   match words line with
   | ["new", n] =>
@@ -74,7 +100,11 @@ def handle (line : String) : String :=
     | none => "bad-op"
   | ["count", n] =>
     match n.toNat? with
-    | some n => match Q1t.Spec.StabEnum.closure params n 200 with
+    | some n =>
+      if n ≥ 4 then (match countClosure n with
+        | some c => s!"ok {c}"
+        | none => "fail")
+      else match Q1t.Spec.StabEnum.closure params n 200 with
       | some l => s!"ok {l.length}"
       | none => "fail"
     | none => "bad-op"
